@@ -658,7 +658,13 @@ func (c *Ctx) c02Denotation(n int) {
 			if c.R.Chance(1, 2) {
 				chainTo(obj, lf.Path[:cut+1], avNull())
 			} else if cut > 0 {
-				chainTo(obj, lf.Path[:cut], avObj())
+				if c.R.Chance(1, 3) {
+					// a nil map of the object type: a non-nil interface value in which every lookup is absent
+					chainTo(obj, lf.Path[:cut], &AV{K: AVObj, Nil: true})
+					c.count("path_through_a_nil_map")
+				} else {
+					chainTo(obj, lf.Path[:cut], avObj())
+				}
 			}
 		}
 		// decoys: what a lookup restarted at the wrong place would find
@@ -758,7 +764,10 @@ func checkC06(c *Ctx) {
 	n := c.budget(12000, 240000)
 	// (a) the table, exhaustively over kind x op x attribute class
 	attrClasses := []func() *AV{func() *AV { return nil }, func() *AV { return avNull() }, func() *AV { return avInt(1) }, func() *AV { return avFloat(1.5) }, func() *AV { return avStr("1.0.0") },
-		func() *AV { return &AV{K: AVBool, B: true} }, func() *AV { o := avObj(); o.Set("b", avInt(1)); return o }, func() *AV { return &AV{K: AVOther, Tag: 8} }, func() *AV { return &AV{K: AVStringer, ID: 1, S: "abc"} }, func() *AV { return &AV{K: AVInt64, I: 1} }}
+		func() *AV { return &AV{K: AVBool, B: true} }, func() *AV { o := avObj(); o.Set("b", avInt(1)); return o }, func() *AV { return &AV{K: AVOther, Tag: 8} }, func() *AV { return &AV{K: AVStringer, ID: 1, S: "abc"} }, func() *AV { return &AV{K: AVInt64, I: 1} },
+		// typed nil pointer, pointer to a scalar, encoding/json's Number (a Stringer) with a non-numeric / numeric / empty text, any other odd type
+		func() *AV { return &AV{K: AVOther, Tag: 4} }, func() *AV { return &AV{K: AVOther, Tag: 24} }, func() *AV { return &AV{K: AVStringer, ID: 0, S: pick(c.R, []string{"abc", "", "42", "1,5", "0x"})} },
+		func() *AV { return &AV{K: AVOther, Tag: c.R.Intn(len(otherNames))} }}
 	for _, kind := range litKinds {
 		for op := 12; op <= 21; op++ {
 			for _, ac := range attrClasses {
@@ -867,7 +876,10 @@ func checkC16(c *Ctx) {
 	n := c.budget(12000, 240000)
 	attrClasses := []func() *AV{func() *AV { return nil }, func() *AV { return avNull() }, func() *AV { return avInt(1) }, func() *AV { return avFloat(1.5) }, func() *AV { return avStr("1.0.0") }, func() *AV { return avStr("s") },
 		func() *AV { return &AV{K: AVBool, B: true} }, func() *AV { o := avObj(); o.Set("b", avInt(1)); return o }, func() *AV { return &AV{K: AVOther, Tag: 8} }, func() *AV { return &AV{K: AVOther, Tag: 2} }, func() *AV { return &AV{K: AVOther, Tag: 3} },
-		func() *AV { return &AV{K: AVStringer, ID: 1, S: "abc"} }, func() *AV { return &AV{K: AVInt64, I: 1} }, func() *AV { return &AV{K: AVInt32, I: 1} }, func() *AV { return avStr("1.0") }}
+		func() *AV { return &AV{K: AVStringer, ID: 1, S: "abc"} }, func() *AV { return &AV{K: AVInt64, I: 1} }, func() *AV { return &AV{K: AVInt32, I: 1} }, func() *AV { return avStr("1.0") },
+		func() *AV { return &AV{K: AVOther, Tag: 4} }, func() *AV {
+			return &AV{K: AVStringer, ID: 0, S: pick(c.R, []string{"abc", "", "42", "1,5", "0x", "--1"})}
+		}, func() *AV { return &AV{K: AVOther, Tag: c.R.Intn(len(otherNames))} }}
 	var cells []*leafCase
 	for _, kind := range litKinds {
 		for op := 12; op <= 21; op++ {
